@@ -8,6 +8,7 @@ Idle ops (answer: `<ret> | <dump>` or `disabled`):
   `acq t` `wake t` `cancel t` `done t ok|err` `rel t`
   where `<ret>` is `-` or `t:ok|err|cancelled` (the call that returned in this segment)
   and `<dump>` is `u=<useCount> w=<0|1> p=<0|1> pcs=t:pc,...` (threads seen so far, ascending).
+`chain o1 .. ok` answers `<result> <invoked>` of `NewChainedCleaner` (0 = nil).
 `runres e1 e2` answers the result class of `cleanRunner.Run`.
 BuildDirs ops (answer: `<token> | <dump>` or `disabled`):
   `dbegin t <name|->` `dname t` `dmkdir t f` `denter t f` `drmdir t f` `dwrite t file`
@@ -101,6 +102,9 @@ def step (s : St) (ws : List String) : St × String :=
     | some t, some ok => idleStep s t (.cleanDone t ok) | _, _ => (s, "bad-op")
   | ["rel", t] => match t.toNat? with
     | some t => idleStep s t (.releaseEnter t) | none => (s, "bad-op")
+  | "chain" :: outs => match natList outs with
+    | some os => let r := BbRe.Idle.chained os; (s, s!"{r.1} {r.2}")
+    | none => (s, "bad-op")
   | ["runres", e1, e2] => match flag? e1, flag? e2 with
     | some e1, some e2 => (s, toString (BbRe.Idle.cleanRunnerResult e1 e2)) | _, _ => (s, "bad-op")
   | ["dbegin", t, d] => match t.toNat? with
